@@ -238,8 +238,24 @@ theorem gc_gen {N : Nat} {c : Conn} (hg : GenC N c) : GenC N c.gc := by
     unfold GenC at hg; rw [hh] at hg
     exact checkin_gen false hg
 
-theorem connect_gen {N : Nat} {db : DB} (hg : Gen N db false) : GenC N (Conn.connect db) :=
-  checkout_gen hg
+theorem connect_gen {N : Nat} {db : DB} (hg : Gen N db false) : GenC N (Conn.connect db) := by
+  have key : ∀ (l : List Bool) (d : DB), Gen N d true → Gen N (l.foldl DB.applyChar d) true := by
+    intro l
+    induction l with
+    | nil => intro d h; exact h
+    | cons b bs ih => intro d h; exact ih _ (data_gen (applyChar_dataOnly d b) h)
+  have he : db.checkout.engineOpts = db.engineOpts := by
+    unfold DB.checkout
+    split
+    · rfl
+    · rfl
+    · simp only []
+      split
+      · rfl
+      · split <;> rfl
+  show Gen N db.connectRaw true
+  unfold DB.connectRaw
+  exact key _ _ (checkout_gen hg)
 
 /-- API calls and lifecycle events after which the invariant is re-established
     (everything except the environment op `warm`) -/
